@@ -277,6 +277,12 @@ def _reader(ctx: Ctx, c: Collector) -> None:
         extra = [x for x in guard_terms(aw[0].guards) if x != guard]
         if extra:
             pr.append("the reader task is only conditionally awaited: " + ", ".join(T.show(x)[:50] for x in extra))
+        # the reader only ends when the request stream ends, and it is our close() that ends it for a simulator that
+        # is busy or does not hang up by itself: close first, then wait
+        closes = [e for e in s.of_kind("await") if e.term == call(("attr", ("attr", me, "_channel"), "close"))]
+        if closes and not any(e.idx < aw[0].idx for e in closes):
+            pr.append("the reader task is awaited before the channel is closed: it only ends with the request stream, so stop() blocks for as long as the "
+                      "simulator keeps its end open (a simulator in the middle of a long step holds up the shutdown of all the others)")
     c.add("reader", RSTOP, "reader task awaited by stop() unless stop() runs inside it", VIOLATED if pr else DISCHARGED, "; ".join(pr), fi.loc)
     # the reader handles every exception class and either ends or stops
     pr = []
